@@ -10,6 +10,7 @@ pub trait RngExt {
     fn chance(&mut self, permille: u64) -> bool;
     fn pick<'a, T>(&mut self, v: &'a [T]) -> &'a T;
     fn pick_w(&mut self, weights: &[u32]) -> usize;
+    fn pick_opt<'a, T>(&mut self, v: &'a [T]) -> Option<&'a T>;
     fn shuffle<T>(&mut self, v: &mut [T]);
 }
 impl RngExt for Rng {
@@ -24,6 +25,13 @@ impl RngExt for Rng {
     }
     fn pick<'a, T>(&mut self, v: &'a [T]) -> &'a T {
         &v[self.below(v.len() as u64) as usize]
+    }
+    fn pick_opt<'a, T>(&mut self, v: &'a [T]) -> Option<&'a T> {
+        if v.is_empty() {
+            None
+        } else {
+            Some(&v[self.below(v.len() as u64) as usize])
+        }
     }
     fn pick_w(&mut self, weights: &[u32]) -> usize {
         let total: u64 = weights.iter().map(|w| *w as u64).sum();
